@@ -130,6 +130,7 @@ struct Run {
   // final private state used by the oracle
   double fp = NaN, fret = NaN, yhi = NaN, ylo = NaN, ymax = NaN, ymin = NaN, gw = NaN;
   double slope = NaN, test = NaN;  // backtracking
+  std::string metaUndercount;      // meta-optimiser: a round whose counter grew by less than its sub-optimisers counted
 };
 
 class Lis : public OptimizationListener {
@@ -145,7 +146,16 @@ class Lis : public OptimizationListener {
     return s;
   }
   void optimizationInitializationPerformed(const OptimizationEvent&) override { r->last = snap(); r->prev = r->last; }
-  void optimizationStepPerformed(const OptimizationEvent&) override { r->counts.push_back(r->opt->getNumberOfEvaluations()); r->prev = r->last; r->last = snap(); r->steps++; if (r->trace) r->hist.push_back(r->last); }
+  void optimizationStepPerformed(const OptimizationEvent&) override {
+    unsigned before = r->counts.empty() ? 0u : r->counts.back();
+    r->counts.push_back(r->opt->getNumberOfEvaluations()); r->prev = r->last; r->last = snap(); r->steps++; if (r->trace) r->hist.push_back(r->last);
+    // a composed optimiser's counter is what its budget bounds: a round must add at least what the sub-optimisers it ran counted themselves
+    if (auto* m = dynamic_cast<MetaOptimizer*>(r->opt.get())) {
+      unsigned sub = 0; for (size_t i = 0; i < m->optDesc_->getNumberOfOptimizers(); ++i) if (m->nbParameters_[i] > 0) sub += m->optDesc_->optimizer(i).getNumberOfEvaluations();
+      unsigned grown = r->counts.back() - before;
+      if (grown < sub && r->metaUndercount.empty()) r->metaUndercount = "round " + std::to_string(r->steps) + ": counter grew by " + std::to_string(grown) + " while the sub-optimisers counted " + std::to_string(sub);
+    }
+  }
   bool listenerModifiesParameters() const override { return false; }
 };
 
@@ -190,7 +200,7 @@ static void doRun(const Cfg& cf, Run& r, vf::Case& c) {
   } else {
     // variant >= 10: the objective is handed over sitting at its minimiser (as after an earlier converged run), not at the requested start:
     // init() must move it to the start before anything is evaluated or differentiated
-    r.obj = std::make_shared<Obj>(cf.spec, cf.var >= 10 ? cf.spec.m : cf.start);
+    r.obj = std::make_shared<Obj>(cf.spec, (cf.var >= 10 && cf.var < 20) ? cf.spec.m : cf.start);
     r.opt = makeOpt(cf.opt, r.obj, n);
   }
   AbstractOptimizer& o = *r.opt;
@@ -213,6 +223,15 @@ static void doRun(const Cfg& cf, Run& r, vf::Case& c) {
   else for (int i = 0; i < n; ++i) {
     if (cf.cons) pl.addParameter(Parameter(Obj::pname(i), cf.start[(size_t)i], std::make_shared<IntervalConstraint>(cf.lo[(size_t)i], cf.hi[(size_t)i], true, true)));
     else pl.addParameter(Parameter(Obj::pname(i), cf.start[(size_t)i]));
+  }
+  if (cf.var >= 20 && !lineMode) {
+    // the optimiser object has already been used: a complete unconstrained run from the mirrored start (nothing of it is judged or recorded);
+    // the run under test then starts from init() on the same object with its own list, constraints and budget
+    ParameterList pl0; for (int i = 0; i < n; ++i) pl0.addParameter(Parameter(Obj::pname(i), -cf.start[(size_t)i]));
+    c.site((std::string(ON[cf.opt]) + "::earlier-run").c_str());
+    try { o.setMaximumNumberOfEvaluations(200); o.init(pl0); o.optimize(); } catch (bpp::Exception&) {}
+    o.setMaximumNumberOfEvaluations((unsigned)cf.bud);
+    r.counts.clear(); r.steps = 0; r.hist.clear(); r.metaUndercount.clear();
   }
   r.obj->recording = true;
   try {
@@ -413,6 +432,7 @@ static void judge(const Cfg& cf, vf::Case& c, bool sampleIt, bool twice) {
     unsigned atStart = (k == 0) ? 1u : r.counts[k - 1] + 1u;
     if (!(atStart < (unsigned)cf.bud)) { c.fail("budget|step-started-after-budget-exhausted|AbstractOptimizer::optimize",   /* the step loop of every optimiser here is AbstractOptimizer::optimize */ in + ": step " + str(k + 1) + " started with counter " + str(atStart) + " >= budget " + str(cf.bud)); break; }
   }
+  if (!r.metaUndercount.empty()) c.fail("budget|counter-omits-evaluations-counted-by-the-sub-optimisers|MetaOptimizer", in + ": " + r.metaUndercount);
   c.tag(r.tolReached ? "stopped:tolerance" : "stopped:budget");
   if (r.obj->nEval > 4 * (size_t)cf.bud + 64) c.tag("diag:true-evaluations>4x-budget");
   // (4) reported point feasible under auto
@@ -559,7 +579,7 @@ int main(int argc, char** argv) {
         addSlice(R, s);
       }
       if (opt != NBOD) {  // slice 2: constraint sets x policies x (objective handed over at the start | at its minimiser)
-        std::vector<int> vars2 = vars; for (int v : vars) vars2.push_back(v + 10);
+        std::vector<int> vars2 = vars; for (int v : vars) vars2.push_back(v + 10); for (int v : vars) vars2.push_back(v + 20);   // + objective at its minimiser; + optimiser object already used
         Slice s; s.opt = opt; s.n = n; s.objs = objectives(n, 1, cap); s.starts = starts; s.cons = {0, 1, 2, 3, 4, 5}; s.pols = {0, 1, 2}; s.tols = th ? std::vector<int>{1, 3} : std::vector<int>{1}; s.buds = {BIG}; s.vars = vars2;
         s.name = base + "objectives" + str(s.objs.size()) + "xstarts" + str(starts.size()) + "xcons6xpolicy3xtol" + str(s.tols.size()) + "xvariants" + str(s.vars.size()) + ":budget" + str(BIG);
         addSlice(R, s);
